@@ -40,4 +40,4 @@ cdef class RecordManager:
     cpdef void async_remove_listener(self, RecordUpdateListener listener)
 
     @cython.locals(question=DNSQuestion, record=DNSRecord)
-    cdef void _async_update_matching_records(self, RecordUpdateListener listener, cython.list questions)
+    cdef void _async_update_matching_records(self, RecordUpdateListener listener, cython.list questions, double now)
